@@ -55,7 +55,7 @@ def tool(d, name, args, timeout=120):
 def hdiff_case(draw):
     base = draw(c02.strategy_("quick"))
     muts = draw(st.lists(st.tuples(st.sampled_from(["sds_value", "sds_value", "vd_value", "gr_value", "sds_attr",
-                                                     "add_sds", "vd_attr"]),
+                                                     "add_sds", "vd_attr", "sd_gattr", "sd_gattr"]),
                                    st.integers(0, 5), st.integers(0, 400)), min_size=1, max_size=3))
     return {"family": "hdiff", "file": base, "mutations": [list(m) for m in muts]}
 
@@ -245,6 +245,13 @@ def run_hdiff(case, d, labels, excluded, known_keys):
             p.call("i", "GRendaccess", V("ri"))
             p.call("i", "GRend", V("gr"))
             p.call("i", "Hclose", V("f"))
+        elif kind == "sd_gattr" and "_gattr" in model:
+            av = model["_gattr"].copy()
+            av[pos % 4] += 1
+            p.call("i", "SDstart", G, 3, bind="sd")
+            p.call("i", "SDsetattr", V("sd"), "gattr", 24, 4, c02.native(av))
+            p.call("i", "SDend", V("sd"))
+            what = "element %d of the 4-element int32 global attribute" % (pos % 4)
         elif kind == "add_sds":
             # an object present in only one of the files is not counted as a difference by hdiff (known finding)
             known_keys.add("C19-hdiff-ignores-added-objects")
